@@ -1,8 +1,10 @@
 import GT.Base.JsonQ
 import GT.Base.QSqrt
 import GT.Model.Isometry
+import GT.Model.GramSchmidt
+import GT.Lemmas.GramSchmidt
 import GT.Model.LinAlgQ
-open Lean GT.J GT Matrix GT.Iso GT.LinAlgQ
+open Lean GT.J GT Matrix GT.Iso GT.LinAlgQ GT.GS
 namespace GT.Driver.C02
 
 /-- square rational matrix of any size with its dimension -/
@@ -30,6 +32,29 @@ def ellipticOp (j : Json) : R Json := do
   let cv ← boolf j "column_vectors"
   return ofMat (if cv then elliptic O else ellipticRow O)
 
+/-- `Iso.loxodromic u` with the two products materialised (what `c02.loxodromic` answers) -/
+def loxodromicD {m : ℕ} (u : ℚ) : DMat (m + 2) (m + 2) ℚ :=
+  let T := DMat.ofMatrix (loxB (m := m) * loxDiag u)
+  DMat.ofMatrix (T.toMatrix * loxBinv)ᵀ
+
+theorem loxodromicD_eq {m : ℕ} (u : ℚ) : (loxodromicD (m := m) u).toMatrix = loxodromic u := by
+  simp [loxodromicD, loxodromic, loxodromicMat]
+
+/-- `Iso.sl2ToSo21 A` with every product materialised -/
+def sl2ToSo21D (A : Matrix (Fin 2) (Fin 2) ℚ) : DMat 3 3 ℚ :=
+  let A3 := DMat.ofMatrix (sl2Irrep3 A)
+  let L := DMat.ofMatrix (perm210 * killingConj * A3.toMatrix)
+  DMat.ofMatrix (L.toMatrix * killingConjInv * perm210)
+
+theorem sl2ToSo21D_eq (A : Matrix (Fin 2) (Fin 2) ℚ) : (sl2ToSo21D A).toMatrix = sl2ToSo21 A := by
+  simp [sl2ToSo21D, sl2ToSo21]
+
+/-- `Iso.sl2Iso A` (what `c02.sl2` answers) -/
+def sl2IsoD (A : Matrix (Fin 2) (Fin 2) ℚ) : DMat 3 3 ℚ := DMat.ofMatrix (sl2ToSo21D A).toMatrixᵀ
+
+theorem sl2IsoD_eq (A : Matrix (Fin 2) (Fin 2) ℚ) : (sl2IsoD A).toMatrix = sl2Iso A := by
+  simp [sl2IsoD, sl2Iso, sl2ToSo21D_eq]
+
 /-- `Isometry.standard_loxodromic(dim, u)` -/
 def loxodromicOp (j : Json) : R Json := do
   let dim ← natf j "dim"
@@ -37,16 +62,12 @@ def loxodromicOp (j : Json) : R Json := do
   if u = 0 then throw "DivZero"
   match dim with
   | 0 => throw "ValueError"
-  | m + 1 =>
-    let T := DMat.ofMatrix (loxB (m := m) * loxDiag u)
-    return ofD (DMat.ofMatrix (T.toMatrix * loxBinv)ᵀ)
+  | m + 1 => return ofD (loxodromicD (m := m) u)
 
 /-- `hyperbolic.sl2_iso(A)` -/
 def sl2Op (j : Json) : R Json := do
   let A ← matf 2 2 j "A"
-  let A3 := DMat.ofMatrix (sl2Irrep3 A)
-  let L := DMat.ofMatrix (perm210 * killingConj * A3.toMatrix)
-  return ofD (DMat.ofMatrix (L.toMatrix * killingConjInv * perm210)ᵀ)
+  return ofD (sl2IsoD A)
 
 /-- `Subspace.reflection_across` from hyperplane data `D` (inverse certified: `certInv_spec`) -/
 def reflectOp (j : Json) : R Json := do
@@ -103,8 +124,98 @@ def applyOp (j : Json) : R Json := do
       ("before", ofQArr #[mink x x, mink y y, mink x y]),
       ("after", ofQArr #[mink xm xm, mink ym ym, mink xm ym])]
 
+instance {n : ℕ} : Inhabited (DVec n ℚ) := ⟨⟨#[]⟩⟩
+
+/-! Staged (array-backed) versions of the SVD-based constructors: every partial-frame row and every Gram–Schmidt
+row is materialised once; each is proved to denote the model definition the theorems are about. -/
+
+/-- `GS.findIsometry rsqrt (minkJ n) part ker` with Gram–Schmidt on array-backed rows -/
+def frameD {n : ℕ} (part ker : List (DVec (n + 1) ℚ)) : List (DVec (n + 1) ℚ) :=
+  (normalizeRows rsqrt (minkJ n) ((gsD (minkJ n) part).map DVec.toFn)
+    ++ normalizeRows rsqrt (minkJ n) ((gsD (minkJ n) ker).map DVec.toFn)).map DVec.ofFn
+
+theorem frameD_eq {n : ℕ} (part ker : List (DVec (n + 1) ℚ)) :
+    (frameD part ker).map DVec.toFn = findIsometry rsqrt (minkJ n) (part.map DVec.toFn) (ker.map DVec.toFn) := by
+  simp [frameD, findIsometry, indefiniteOrthogonalize, gsD_toFn, Function.comp_def]
+
+/-- the partial frame `Point.origin_to` hands to `find_isometry` -/
+def originPartD {n : ℕ} (x : Fin (n + 1) → ℚ) : List (DVec (n + 1) ℚ) :=
+  let xn := DVec.ofFn (normalizeVec rsqrt (minkJ n) x)
+  [DVec.ofFn (sheetSign xn.toFn • xn.toFn)]
+
+theorem originToD_eq {n : ℕ} (x : Fin (n + 1) → ℚ) (ker : List (DVec (n + 1) ℚ)) :
+    (frameD (originPartD x) ker).map DVec.toFn = originTo rsqrt x (ker.map DVec.toFn) := by
+  simp [frameD_eq, originPartD, originTo]
+
+/-- the partial frame `TangentVector.origin_to` hands to `find_isometry` -/
+def tangentPartD {n : ℕ} (x v : Fin (n + 1) → ℚ) : List (DVec (n + 1) ℚ) :=
+  let xn := DVec.ofFn (normalizeVec rsqrt (minkJ n) x)
+  let vn := DVec.ofFn (normalizeVec rsqrt (minkJ n) v)
+  [DVec.ofFn (sheetSign xn.toFn • xn.toFn), DVec.ofFn (sheetSign xn.toFn • vn.toFn)]
+
+theorem tangentOriginToD_eq {n : ℕ} (x v : Fin (n + 1) → ℚ) (ker : List (DVec (n + 1) ℚ)) :
+    (frameD (tangentPartD x v) ker).map DVec.toFn = tangentOriginTo rsqrt x v (ker.map DVec.toFn) := by
+  simp [frameD_eq, tangentPartD, tangentOriginTo]
+
+/-- `GS.spacelikeFrame rsqrt v`, materialised -/
+def spacelikePartD {n : ℕ} (v : Fin (n + 1) → ℚ) : List (DVec (n + 1) ℚ) :=
+  let vn := DVec.ofFn (normalizeVec rsqrt (minkJ n) v)
+  [DVec.ofFn (Pi.single 0 1 - gproj (minkJ n) (Pi.single 0 1) vn.toFn), vn]
+
+theorem spacelikePartD_eq {n : ℕ} (v : Fin (n + 1) → ℚ) :
+    (spacelikePartD v).map DVec.toFn = spacelikeFrame rsqrt v := by
+  simp [spacelikePartD, spacelikeFrame]
+
+theorem spacelikeToD_eq {n : ℕ} (v : Fin (n + 1) → ℚ) (ker : List (DVec (n + 1) ℚ)) :
+    (frameD (spacelikePartD v) ker).map DVec.toFn = spacelikeTo rsqrt v (ker.map DVec.toFn) := by
+  rw [frameD_eq, spacelikePartD_eq]; rfl
+
+/-- optional list of rows of length `n` under `k` (absent: no rows) -/
+def rowsOpt (n : ℕ) (j : Json) (k : String) : R (List (DVec n ℚ)) := do
+  match j.getObjVal? k with
+  | .error _ => pure []
+  | .ok v =>
+    let a ← qArr2 v
+    if a.any (fun r => r.size ≠ n) then throw s!"expected rows of length {n}"
+    return a.toList.map fun r => (⟨r⟩ : DVec n ℚ)
+
+/-- the SVD-based constructors of `hyperbolic.py` given a kernel basis `ker` (absent: only the rows the
+algorithm determines): `Point.origin_to` (`kind = "origin_to"`, point `x`), `TangentVector.origin_to`
+(`"tv_origin_to"`, base point `x`, stored vector `v`), `hyperbolic.spacelike_to` (`"spacelike_to"`, vector `v`).
+Answer: the rows (`frameD`, every root exact, else `irrational-root`); with `"unnormalized": true` the
+Gram–Schmidt rows before the final `normalize` and their square-norms (no root taken on them) -/
+def frameOp (j : Json) : R Json := do
+  let kind ← strf j "kind"
+  let va ← qArr (← field j (if kind == "spacelike_to" then "v" else "x"))
+  match va.size with
+  | 0 => throw "empty vector"
+  | n + 1 =>
+    let x ← vec (n + 1) (.arr (va.map ofQ))
+    let ker ← rowsOpt (n + 1) j "ker"
+    if !isSq |bil (minkJ n) x x| then throw "irrational-root"
+    let part ← (do
+      if kind == "spacelike_to" then pure (spacelikePartD x)
+      else if kind == "origin_to" then pure (originPartD x)
+      else if kind == "tv_origin_to" then
+        let v ← vecf (n + 1) j "v"
+        if !isSq |bil (minkJ n) v v| then throw "irrational-root"
+        pure (tangentPartD x v)
+      else throw "unknown kind")
+    let g1 := gsD (minkJ n) part
+    let g2 := gsD (minkJ n) ker
+    let nrm := fun (l : List (DVec (n + 1) ℚ)) => l.map fun v => bil (minkJ n) v.toFn v.toFn
+    if ((nrm g1).dropLast).any (· = 0) || ((nrm g2).dropLast).any (· = 0) then throw "DivZero"
+    let unn := match j.getObjVal? "unnormalized" with
+      | .ok (.bool true) => true
+      | _ => false
+    if unn then
+      return Json.mkObj [("rows", .arr ((g1 ++ g2).toArray.map fun v => ofQArr v.a)), ("norms", ofQArr (nrm (g1 ++ g2)).toArray)]
+    for q in nrm (g1 ++ g2) do
+      if !isSq |q| then throw "irrational-root"
+    return .arr ((frameD part ker).toArray.map fun v => ofQArr v.a)
+
 def ops : List (String × Handler) :=
   [("c02.rotation", rotationOp), ("c02.elliptic", ellipticOp), ("c02.loxodromic", loxodromicOp),
    ("c02.sl2", sl2Op), ("c02.reflect", reflectOp), ("c02.refl_closed", reflClosedOp),
-   ("c02.word", wordOp), ("c02.residual", residualOp), ("c02.apply", applyOp)]
+   ("c02.word", wordOp), ("c02.residual", residualOp), ("c02.apply", applyOp), ("c02.frame", frameOp)]
 end GT.Driver.C02
